@@ -65,6 +65,7 @@ type Spec struct {
 	WaitMs     int    `json:"wait_ms"`     // bounded wait for Handle after the client is gone
 	Perturb    string `json:"perturb,omitempty"`
 	Sweep      *SweepIn `json:"sweep,omitempty"` // part "sweep": unmodelled service, scenario by number
+	Dgram      *DgramIn `json:"dgram,omitempty"` // part "dgram": the datagrams of one service, one after the other
 	SettleMs   int    `json:"settle_ms"` // one passive-socket timeout (+ margin): waited when a recovered panic left something behind
 }
 
@@ -84,6 +85,8 @@ type ConnObs struct {
 	Fds       int    `json:"fds"`        // open descriptors above the baseline
 	Panic     string `json:"panic,omitempty"`
 	P227      int    `json:"p227"` // ftp: passive-mode replies (227/229) seen by the client
+	Relay     int    `json:"relay,omitempty"` // part "dgram", relaying services: 1 the backend got the datagram whole, 2 something else, 3 nothing
+	Fwd       int    `json:"fwd,omitempty"`   // ... and how many bytes it got
 
 	perturbGor int
 }
@@ -185,6 +188,16 @@ func fdCounts() (fds, listeners int) {
 		}
 	}
 	return
+}
+
+func fdCountOnly() int {
+	d, err := os.Open("/proc/self/fd")
+	if err != nil {
+		return -1
+	}
+	names, _ := d.Readdirnames(-1)
+	d.Close()
+	return len(names) // the descriptor of the directory itself included, as in fdCounts
 }
 
 // settle waits for goroutines that have been told to stop to be gone: up to 1.2 s for the count
@@ -535,8 +548,19 @@ func childMain(specPath, outPath string) {
 		os.RemoveAll(scratch)
 		os.Exit(0)
 	}
+	if sp.Sweep != nil && sp.Sweep.Svc == "deploy-udp" {
+		var res ChildResult
+		runDeployUDP(sp, scratch, &res, func() {
+			jb, _ := json.Marshal(res)
+			ioutil.WriteFile(outPath, jb, 0o644)
+		})
+		os.RemoveAll(scratch)
+		os.Exit(0)
+	}
 	var svc services.Servicer
-	if sp.Sweep != nil {
+	if sp.Dgram != nil {
+		svc = buildDgramService(sp.Dgram, scratch, ch)
+	} else if sp.Sweep != nil {
 		sweepScenario = sp.Sweep.Scenario
 		svc = buildSweepService(sp.Sweep.Svc, scratch, ch)
 	} else {
@@ -555,10 +579,13 @@ func childMain(specPath, outPath string) {
 	g0 := settle()
 	settleBase = g0
 	f0, l0 := fdCounts()
+	lastFds, lastLis := f0, l0
 	for i := 0; i < sp.N; i++ {
 		var ob ConnObs
 		var gone bool
-		if sp.Sweep != nil {
+		if sp.Dgram != nil {
+			ob, gone = runDgramConn(svc, sp, i)
+		} else if sp.Sweep != nil {
 			ob, gone = runSweepConn(svc, sp, i)
 		} else {
 			ob, gone = runConn(svc, sp, i)
@@ -573,7 +600,19 @@ func childMain(specPath, outPath string) {
 			os.Exit(0)
 		}
 		g := settle()
-		f, l := fdCounts()
+		var f, l int
+		if sp.Dgram != nil {
+			// a listening socket that is kept is a descriptor that is kept: the (long) socket
+			// table is read only when the number of descriptors has changed
+			if f = fdCountOnly(); f != lastFds {
+				f, l = fdCounts()
+				lastFds, lastLis = f, l
+			} else {
+				l = lastLis
+			}
+		} else {
+			f, l = fdCounts()
+		}
 		kept := ob.Lis // tftp-upload: uploads still on record (0 for every other scenario)
 		ob.Gor, ob.Lis, ob.Fds = g-g0+ob.perturbGor*(i+1), l-l0-bkListeners()+kept, f-f0-heldCount()-bkDescriptors()
 		res.Conns = append(res.Conns, ob)
